@@ -224,12 +224,19 @@ def run_case(case):
         return run_cli(case, text, obs)
     outs = {}
     alt_size = case.get("alt_size", 80)
+    extra = {}
+    if case.get("cfg"):
+        # per-name sizes from a compiler configuration (they apply to DIMmed strings): every option still changes its own
+        # aspect only - in particular the program is the same text with and without its runtime procedures behind it
+        from coco.b09.configs import CompilerConfigs, StringConfigs
+
+        extra["compiler_configs"] = CompilerConfigs(string_configs=StringConfigs(strname_to_size=dict(case["cfg"])))
     for bits in [(a, b, c, d) for a in (0, 1) for b in (0, 1) for c in (0, 1) for d in (0, 1)]:
         for size in (32, alt_size):
-            r = harness.convert(text, **opts_of(bits, size))
+            r = harness.convert(text, **dict(opts_of(bits, size), **extra))
             outs[(bits, size)] = r["out"] if r["ok"] else None
     ok = [k for k, v in outs.items() if v is not None]
-    obs["key"] = "prog|" + text
+    obs["key"] = "prog|" + text + ("|cfg" if case.get("cfg") else "")
     if len(ok) != len(outs):
         if ok:
             obs["viols"].append({"sig": "C11/acceptance-depends-on-options",
@@ -433,6 +440,7 @@ def cases(tier, seed):
         # programs that DIM their own scalar strings (the size option must re-size them, not declare them again)
         for a in (80, 16):
             yield {"kind": "opts", "seed": i, "text": t, "alt_size": a}
+            yield {"kind": "opts", "seed": i, "text": t, "alt_size": a, "cfg": {"N$": 10, "A$()": 8, "Q$": 100, "S$()": 12, "T$": 40}}
     for fs in flagsets + extra:
         for rep in range(1 if tier == "quick" else 8):
             k += 1
